@@ -239,6 +239,7 @@ def span_cases(draw, family=None):
         c["nan_T"] = draw(st.lists(st.tuples(st.integers(0, 24 * 400), st.integers(1, 30)), max_size=3))
         c["nan_obs"] = draw(st.lists(st.tuples(st.integers(0, 24 * 400), st.integers(1, 30)), max_size=3))
         c["ghi"] = draw(st.booleans())
+        c["entry"] = draw(st.sampled_from(["index", "index", "datetime_column"]))  # timestamps as the index or in a tz-aware column
     else:
         c["model"] = draw(gp.doc_case(families=(fam,)))
         c["model"]["tz"] = c["tz"]
@@ -277,6 +278,11 @@ def judge_span(c, rec):
             rec.case(c, False, cls + ["no-temperature"])
             return
         m = hourly_model_for(tz, ghi=c["ghi"])
+        if c.get("entry") == "datetime_column":
+            df = df.copy()
+            df.insert(0, "datetime", df.index)
+            df = df.reset_index(drop=True)
+            cls = cls + ["entry=datetime-column"]
         with contextlib.redirect_stdout(io.StringIO()):
             data = em.HourlyReportingData(df, is_electricity_data=True)
             out = m.predict(data, ignore_disqualification=True)
